@@ -22,6 +22,7 @@ Theorem C17_translation_matches_model : forall (V : Type) (param ctxv : option V
   get_config_param param ctxv dflt = Ok (gcp param ctxv dflt) /\
   gcp param ctxv dflt = match param with Some v => v | None => match ctxv with Some v => v | None => dflt end end.
 Proof. exact C17_translation_matches_model_holds. Qed.
+Print Assumptions C17_translation_matches_model.
 
 (* SCOPED.  Every program fragment p -- in particular every `with` block, whatever it contains: blocks at any depth,
    failing manager constructions, failing Parallel(...) calls, raise, try/except -- started by thread t with
@@ -34,11 +35,13 @@ Theorem C17_scoped : forall (g : gstate) (t : nat) (p : prog) (c : config) (k : 
       t_cur (grun sched g t) = c /\ t_stack (grun sched g t) = k /\
       (t_ctl (grun sched g t) = Done \/ t_ctl (grun sched g t) = Throw).
 Proof. exact scoped_any_schedule. Qed.
+Print Assumptions C17_scoped.
 
 (* ... and a thread that runs a whole program halts with the configuration it started with *)
 Theorem C17_scoped_whole_program : forall p c,
   let ts := run_solo (steps_bound p) (start c p) in halted ts = true /\ t_cur ts = c /\ t_stack ts = [].
 Proof. exact solo_scoped. Qed.
+Print Assumptions C17_scoped_whole_program.
 
 (* THREAD-LOCAL.  A step of thread t leaves every other thread's state (configuration, stack, observations) unchanged,
    and under any schedule the state of a thread -- hence everything it observes -- is exactly what its own steps alone
@@ -47,6 +50,7 @@ Theorem C17_thread_local :
   (forall g t u, u <> t -> gstep g t u = g u) /\
   (forall sched g t, grun sched g t = iter (count_tid t sched) (g t)).
 Proof. exact C17_thread_local_holds. Qed.
+Print Assumptions C17_thread_local.
 
 (* In every state a thread can reach (any schedule, any program, started with the default configuration) the
    configuration is determined by the `with` blocks the thread is currently inside of. *)
@@ -54,6 +58,7 @@ Theorem C17_reachable_config : forall sched g t p,
   g t = start default_config p ->
   stack_inv default_config (t_stack (grun sched g t)) (t_cur (grun sched g t)).
 Proof. exact C17_reachable_config_holds. Qed.
+Print Assumptions C17_reachable_config.
 
 (* PRIORITY.  For a Parallel(args) constructed successfully by a thread inside the blocks [specs_of k] (innermost first):
    explicit argument > innermost enclosing block that sets the key > outer blocks > default, for verbose, temp_folder,
@@ -77,6 +82,7 @@ Theorem C17_priority : forall k cur a r,
   (a_backend a = None -> forced a cur = false ->
      r_kind r = match innermost spec_kind sp with Some kd => kd | None => BLoky end).
 Proof. exact C17_priority_holds. Qed.
+Print Assumptions C17_priority.
 
 (* The one documented exception (asserted by the repo's test_backend_hinting_and_constraints for a context that names a
    process backend together with require='sharedmem'): when the forced thread fallback fires and n_jobs is not passed
@@ -85,6 +91,7 @@ Theorem C17_priority_forced_fallback : forall cur a r,
   parallel_init a cur = Ok r -> forced a cur = true ->
   (njobs_arg a = None -> r_njobs r = 1) /\ (a_backend a = None -> r_kind r = BThr).
 Proof. exact C17_priority_forced_fallback_holds. Qed.
+Print Assumptions C17_priority_forced_fallback.
 
 (* full statement "the innermost context's n_jobs wins over the default whenever n_jobs is not passed explicitly and no
    context names a backend that has to be replaced" is FALSE of the code (F16):
@@ -95,6 +102,7 @@ Theorem C17_priority_njobs_refuted : exists k cur a r,
   njobs_arg a = None /\ a_backend a = None /\ innermost spec_kind (specs_of k) = None /\
   innermost s_njobs (specs_of k) = Some (Some 2) /\ r_njobs r = 1.
 Proof. exact C17_priority_njobs_refuted_holds. Qed.
+Print Assumptions C17_priority_njobs_refuted.
 
 (* SHAREDMEM.  A successfully constructed Parallel has a backend with shared memory whenever require='sharedmem' is
    passed to it, and whenever it is the resolved setting (argument or context) and no backend is passed explicitly to
@@ -104,6 +112,7 @@ Theorem C17_sharedmem : forall a c r, parallel_init a c = Ok r ->
   (a_require a = Some 1 -> supports_sharedmem (r_kind r) = true) /\
   (res_require a c = 1 -> a_backend a = None -> supports_sharedmem (r_kind r) = true).
 Proof. exact C17_sharedmem_holds. Qed.
+Print Assumptions C17_sharedmem.
 
 (* full statement "require='sharedmem' (argument or context) always yields a backend with shared memory" is FALSE of the
    code (F17): Parallel.__init__ tests the ARGUMENT `require`, not the resolved setting:
@@ -113,6 +122,7 @@ Theorem C17_sharedmem_context_refuted : exists k cur a r,
   stack_inv default_config k cur /\ parallel_init a cur = Ok r /\
   r_kw_require r = 1 /\ supports_sharedmem (r_kind r) = false.
 Proof. exact C17_sharedmem_context_refuted_holds. Qed.
+Print Assumptions C17_sharedmem_context_refuted.
 
 (* PREFER IS ONLY A HINT.  Whatever prefer is (argument or context): a backend passed to Parallel is the one used; a
    backend named by the context is the one used (class and nesting level) unless the resolved require is 'sharedmem';
@@ -124,12 +134,14 @@ Theorem C17_prefer_hint : forall a c r, parallel_init a c = Ok r ->
   (a_backend a = None -> c_backend c = None ->
      r_kind r = if (res_require a c =? 1) || (res_prefer a c =? 1) then BThr else BLoky).
 Proof. exact C17_prefer_hint_holds. Qed.
+Print Assumptions C17_prefer_hint.
 
 (* invalid or inconsistent hints never produce an instance *)
 Theorem C17_invalid_rejected : forall a c r, parallel_init a c = Ok r ->
   valid_prefer (res_prefer a c) = true /\ valid_require (res_require a c) = true /\
   a_backend a <> Some BInvalid.
 Proof. exact C17_invalid_rejected_holds. Qed.
+Print Assumptions C17_invalid_rejected.
 
 (* non-vacuity: a depth-3 nesting with an exception, observed inside and after; the hypotheses of C17_priority hold
    in a state with three enclosing blocks and the resolution picks arguments from three different levels *)
@@ -153,3 +165,4 @@ Example C17_example :
       RParallel (Ok {| r_kind := BLoky; r_level := 0; r_njobs := 1; r_verbose := 0; r_kw_maxnb := Some 1048576;
                        r_kw_temp := 0; r_kw_mmap := 1; r_kw_prefer := 0; r_kw_require := 0; r_kw_verbose := 0 |}) ].
 Proof. vm_compute. repeat split. Qed.
+Print Assumptions C17_example.
